@@ -2,6 +2,7 @@ package c09
 
 import (
 	"fmt"
+	"github.com/dop251/goja"
 	"os"
 	"testing"
 )
@@ -24,4 +25,23 @@ func TestProbe(t *testing.T) {
 		fmt.Println("  log:", l)
 	}
 	fmt.Printf("idle: %+v\n", e.idleFault())
+}
+
+func TestProbeIdle(t *testing.T) {
+	fn := os.Getenv("C09_JS")
+	if fn == "" {
+		t.Skip("set C09_JS")
+	}
+	src, _ := os.ReadFile(fn)
+	e := newEngine()
+	for i := 0; i < 4; i++ {
+		_, err := e.rt.RunString(string(src))
+		fmt.Printf("err=%v idle=%+v\n", err, goja.VerifIdle(e.rt))
+	}
+	self, _ := e.genStart()
+	for i := 0; i < 4; i++ {
+		res, _, ft := e.genStep(self, 7, 0, 1)
+		fmt.Printf("res=%s ft=%v idle=%+v\n", res, ft, goja.VerifIdle(e.rt))
+		self, _ = e.genStart()
+	}
 }
